@@ -26,7 +26,7 @@ RULE = ('(callable kind | class shape) x API {configurable, register, external_c
         'pickle; rejection menu x API leaves the registry unchanged; interactive mode scope. non-trivial = every case.')
 ASSUMPTIONS = ['classes are created fresh per case in a synthetic module so that pickling by reference works',
                'builtins with positional-only parameters are checked for call transparency only']
-WITNESSES = ['registered_method_reached_through_original', 'direct_call_uninjected', 'registry_version_injected', 'vars_unchanged', 'metadata_preserved',
+WITNESSES = ['positional_caller_value_wins', 'registered_method_reached_through_original', 'direct_call_uninjected', 'registry_version_injected', 'vars_unchanged', 'metadata_preserved',
              'exact_type_instance', 'pickle_roundtrip', 'scoped_instance_is_original_class', 'rejection_atomic',
              'interactive_reregistration', 'interactive_mode_ends', 'registered_method_subclass_instance',
              'signature_preserved', 'builtin_callable']
@@ -96,6 +96,13 @@ def k_callable_obj():
   return o, 'x', lambda r: r[2], dict(call=lambda f: f(), needs_name=True)
 
 
+def k_bound_method():
+  class Holder:
+    def meth(self, a='da', x='dx'):
+      return ('bound', a, x)
+  return Holder().meth, 'x', lambda r: r[2], dict(call=lambda f: f(), needs_name=True)
+
+
 def k_partial():
   def base(a, x='dx', y='dy'):
     return ('partial', a, x, y)
@@ -138,7 +145,8 @@ def k_double_wrapped():
 
 CALLABLES = {'wraps_decorated': k_wraps_decorated, 'lru_cached': k_lru_cached, 'double_wrapped': k_double_wrapped,
              'def': k_def, 'lambda': k_lambda, 'sum': k_sum, 'len': k_len, 'str.upper': k_str_upper,
-             'object.__init__': k_method_wrapper, 'callable_obj': k_callable_obj, 'partial': k_partial}
+             'object.__init__': k_method_wrapper, 'callable_obj': k_callable_obj, 'partial': k_partial,
+             'bound_method': k_bound_method}
 
 
 # ------------------------------------------------------------------------------------ classes
@@ -148,6 +156,28 @@ def c_init():
     def __init__(self, a='da', x='dx'):
       self.a, self.x = a, x
   return put(C, fresh('CInit'))
+
+
+class FalsyMeta(type):
+  """Classes with a length (e.g. registries, enum-like containers) can be falsy."""
+  def __len__(cls):
+    return 0
+
+
+def c_falsy():
+  class C(metaclass=FalsyMeta):
+    """doc C."""
+    def __init__(self, a='da', x='dx'):
+      self.a, self.x = a, x
+  return put(C, fresh('CFalsy'))
+
+
+def c_param_new_cls():
+  class C:
+    """doc C."""
+    def __init__(self, new_cls='dn', x='dx'):
+      self.new_cls, self.x = new_cls, x
+  return put(C, fresh('CNewCls'))
 
 
 def c_new():
@@ -273,7 +303,8 @@ def c_with_method():
 
 CLASSES = {'__init__': c_init, '__new__': c_new, 'both': c_both, 'neither': c_neither, 'metaclass': c_meta,
            'metaclass+__new__': c_meta_new, '__slots__': c_slots, 'namedtuple': c_namedtuple, 'abc': c_abc,
-           'dataclass': c_dataclass, 'generic': c_generic, 'with_registered_method': c_with_method}
+           'dataclass': c_dataclass, 'generic': c_generic, 'with_registered_method': c_with_method,
+           'falsy_class': c_falsy, 'param_named_new_cls': c_param_new_cls}
 APIS = ['configurable', 'register', 'external_configurable']
 FORMS = ['bare', 'name', 'name_module']
 SCOPES = [None, 's']
@@ -412,6 +443,21 @@ def case_callable(kind, api, form, scope, res):
       return
   if info.get('builtin'):
     res.w('builtin_callable')
+  # a caller value given positionally wins over a binding of that (first) parameter, whatever kind of callable it is
+  if kind in ('def', 'callable_obj', 'bound_method', 'wraps_decorated', 'double_wrapped'):
+    try:
+      gin.bind_parameter(((scope or ''), selector, 'a'), 'BA')
+      reg = gin.get_configurable((scope + '/' if scope else '') + selector)
+      r_pos, r_none = reg('CA'), reg()
+    except Exception as e:  # pylint: disable=broad-except
+      res.violation('registry_version_failed', '%r: positional caller value for a bound first parameter raised %r' %
+                    (desc, e), desc)
+      return
+    if (r_pos[1], r_none[1]) != ('CA', 'BA'):
+      res.violation('registry_version_not_injected', '%r: first parameter: positional call delivered %r, call without '
+                    'arguments %r' % (desc, r_pos, r_none), desc)
+      return
+    res.w('positional_caller_value_wins')
 
 
 def case_class(shape, api, form, scope, res):
@@ -531,6 +577,18 @@ def case_class(shape, api, form, scope, res):
                       '%r, bindings %r' % (desc, (via_inst, via_obj, via_sel), bnd), desc)
         return
       res.w('registered_method_reached_through_original')
+  if shape == 'param_named_new_cls':
+    try:
+      by_caller = V(new_cls='caller').new_cls
+      gin.bind_parameter(((scope or ''), selector, 'new_cls'), 'NC')
+      by_binding = Vsel().new_cls
+    except Exception as e:  # pylint: disable=broad-except
+      res.violation('registry_version_failed', '%r: a constructor parameter named new_cls: %r' % (desc, e), desc)
+      return
+    if (by_caller, by_binding) != ('caller', 'NC'):
+      res.violation('registry_version_not_injected', '%r: parameter new_cls: caller value %r, bound value %r' %
+                    (desc, by_caller, by_binding), desc)
+      return
   if api == 'configurable' and sig_before is not None:
     if str(inspect.signature(ret)) != sig_before:
       res.violation('signature_lost', '%r: signature %s, original %s' % (desc, inspect.signature(ret), sig_before), desc)
@@ -539,7 +597,7 @@ def case_class(shape, api, form, scope, res):
 
 
 # ------------------------------------------------------------------------------------ rejections
-REJECTIONS = ['invalid_name', 'invalid_name_slash', 'invalid_module', 'other_object_same_name', 'allow_unknown',
+REJECTIONS = ['invalid_name', 'invalid_name_newline', 'invalid_module_newline', 'invalid_name_slash', 'invalid_module', 'other_object_same_name', 'allow_unknown',
               'deny_unknown', 'both_lists', 'allowlist_not_list', 'name_with_invalid_module_part']
 
 
@@ -583,6 +641,10 @@ def case_reject(kind, api, what, res):
   name = fresh('rej')
   if kind == 'invalid_name':
     name = '1bad'
+  elif kind == 'invalid_name_newline':
+    name = 'trailing_newline\n'
+  elif kind == 'invalid_module_newline':
+    kw['module'] = 'c13.mod\n'
   elif kind == 'invalid_name_slash':
     name = 'a/b'
   elif kind == 'invalid_module':
